@@ -4,7 +4,7 @@
    (.debug_loc/.debug_ranges: DWARF 2-4 §7.7.3/§7.23; .debug_loclists/.debug_rnglists: DWARF 5
    §7.28/§7.29; DW_AT_GNU_locviews: binutils/GCC layout, the pairs immediately before their list.) *)
 From Coq Require Import String.
-From PV Require Import Base.Bytes Spec.PrimSpec Model.C07Kinds Spec.C07Lists.
+From PV Require Import Base.Bytes Base.PyData Spec.PrimSpec Model.C07Kinds Spec.C07Lists.
 From Coq Require Import ZArith List Bool.
 Import ListNotations.
 Open Scope string_scope.
@@ -61,16 +61,24 @@ Section Items.
   (* ---- v5: unit blocks *)
   Record lunit : Type := {
     lu_is64 : bool; lu_version : Z; lu_asz : Z; lu_seg : Z;
-    lu_index : list nat;        (* offset-table entry k designates the lu_index[k]-th list of the block *)
+    lu_index : list (nat * nat);
+        (* offset-table entry k = (i, j) designates the i-th list of the block from its j-th entry on
+           (j = 0: the whole list; j > 0: a list sharing the tail of another one) *)
     lu_items : list (item A) }.
 
   Definition lu_count (u : lunit) : Z := zlen (lu_index u).
   Definition lu_table_size (u : lunit) : Z := Z.of_nat (offset_size (lu_is64 u)) * lu_count u.
   (* offsets relative to the first byte of the offset table (DWARF 5 §7.28: "relative to the
      first offset entry") *)
+  (* the entries of the list items, in order *)
+  Definition items_lists (its : list (item A)) : list (list A) :=
+    flat_map (fun it => match it with IGap _ => [] | IList _ l => [l] end) its.
+  (* bytes between the first byte of a list and its j-th entry (enc_list appends the terminator) *)
+  Definition entry_skip (l : list A) (j : nat) : Z := zlen (enc_list (firstn j l)) - zlen (enc_list []).
   Definition lu_offsets (u : lunit) : list Z :=
     let ps := items_pos (lu_table_size u) (lu_items u) in
-    map (fun k => snd (nth k ps (0, 0))) (lu_index u).
+    map (fun k => snd (nth (fst k) ps (0, 0)) + entry_skip (nth (fst k) (items_lists (lu_items u)) []) (snd k))
+        (lu_index u).
   Definition lunit_blk (u : lunit) : unit_blk :=
     {| ub_is64 := lu_is64 u; ub_version := lu_version u; ub_asz := lu_asz u; ub_seg := lu_seg u;
        ub_offsets := lu_offsets u; ub_body := enc_items (lu_items u) |}.
@@ -90,7 +98,8 @@ Section Items.
 
   Definition wf_lunit (wf_list : list A -> bool) (u : lunit) : bool :=
     wf_unit (lunit_blk u)
-    && forallb (fun k => (k <? length (items_pos 0 (lu_items u)))%nat) (lu_index u)
+    && forallb (fun k => (fst k <? length (items_pos 0 (lu_items u)))%nat
+                         && (snd k <=? length (nth (fst k) (items_lists (lu_items u)) []))%nat) (lu_index u)
     && forallb (fun it => match it with
                           | IGap g => all_bytes g
                           | IList vs l => forallb wf_viewpair vs && wf_list l
@@ -109,3 +118,27 @@ Arguments lu_items {A} l.
 Definition enum_expected (refs : list Z) (ex : list (Z * Z * list tup)) : list (list tup) :=
   map snd (filter (fun e => existsb (Z.eqb (fst (fst e))) refs) ex).
 
+(* ---- designations that share a tail.  A debugging entry (or an offset-table slot) may designate the
+   first byte of an ENTRY of a list: that is the list made of this entry and the following ones up to the
+   same terminator.  Every tuple carries its entry offset first. *)
+Definition tup_offset (t : tup) : Z := match snd t with FInt o :: _ => o | _ => -1 end.
+Fixpoint suffix_from (o : Z) (ts : list tup) : option (list tup) :=
+  match ts with
+  | [] => None
+  | t :: r => if tup_offset t =? o then Some ts else suffix_from o r
+  end.
+Fixpoint first_some {A B} (f : A -> option B) (l : list A) : option B :=
+  match l with
+  | [] => None
+  | x :: r => match f x with Some y => Some y | None => first_some f r end
+  end.
+(* what offset o designates: the item that starts there, else the tail of the item that has an entry there *)
+Definition designated (ex : list (Z * Z * list tup)) (o : Z) : option (list tup) :=
+  match find (fun e => fst (fst e) =? o) ex with
+  | Some e => Some (snd e)
+  | None => first_some (fun e => suffix_from o (snd e)) ex
+  end.
+(* the enumeration: every designated list once, in offset order *)
+Definition enum_designated (refs : list Z) (ex : list (Z * Z * list tup)) : list (list tup) :=
+  flat_map (fun o => match designated ex o with Some l => [l] | None => [] end)
+           (PyData.sorted_by (fun x => x) (PyData.dedup Z.eqb refs)).
